@@ -90,6 +90,8 @@ def tu_of(f, op, rep, rep2, r, c, p):
         return p
     if op in ("leftmultiply", "rightmultiply") and rep == "DM" and rep2 == "FM":
         return r if op == "leftmultiply" else c
+    if op.startswith("xr_") or op.startswith("xw_"):
+        return 1
     static = any(x in ("FM", "DG", "FV", "SV", "SW", "TF", "TG", "SC") for x in (rep, rep2))
     if static:
         return r
@@ -364,6 +366,20 @@ def gen_extra(ctx):
                         emit("xnorm", "DM", "DM", r, c, 0, [g.scalar()] + M(r, c, 97))
                     if f in ("D", "C"):
                         emit("xfield", "DM", "DM", r, c, 0, [g.scalar()] + MS(r, c, 97))
+            # every in-place / mutating operation with every 1x1 / size-1 representation as the RECEIVER and as the argument
+            # (owning FM/DM/FV/DV, views SV/SW, SC = view of a const scalar, SS = a second view of the receiver's own scalar)
+            for rep in ("SV", "FM", "DM"):
+                for rep2 in ("SV", "FM", "DM", "SC") + (("SS",) if rep == "SV" else ()):
+                    for op in ("leftmultiply", "rightmultiply", "madd", "msub", "mscale", "maxpy", "meq", "mneg"):
+                        emit("xr_" + op, rep, rep2, 1, 1, 0, [g.scalar(), g.elem(97), g.elem(101)])
+                    dv = g.divisor()
+                    emit("xr_mdiv", rep, rep2, 1, 1, 0, [g.dstr(dv), g.times(g.elem(97), dv), g.elem(101)])
+            for rep in ("SW", "FV", "DV"):
+                for rep2 in ("SW", "FV", "DV", "SC") + (("SS",) if rep == "SW" else ()):
+                    for op in ("vadd", "vsub", "vaxpy", "vadds", "vsubs", "vscale", "veq", "vdotT", "vdot", "vplus", "vminus", "vneg"):
+                        emit("xw_" + op, rep, rep2, 1, 0, 0, [g.scalar(), g.elem(101), g.elem(103)])
+                    dv = g.divisor()
+                    emit("xw_vdiv", rep, rep2, 1, 0, 0, [g.dstr(dv), g.times(g.elem(101), dv), g.elem(103)])
             # 1x1 matrices / size-1 vectors used like scalars, scalar views
             for _ in range(3):
                 for op in ["xfm11adds", "xfm11sadd", "xfm11subs", "xfm11ssub", "xfm11pluseq", "xfm11minuseq", "xfm11timeseq", "xfm11mpluseq", "xfm11conv"]:
